@@ -148,6 +148,7 @@ Definition policy_answer (pol : Z) (u : list rfile) (sent : list bytes) (f : rfi
          | x :: r => x :: filter (fun y => negb (mem_b (rf_name y) sent)) r
          end
   | 3 => rev (closure_of u f)
+  | 8 => filter (fun y => negb (mem_b (rf_name y) sent)) (closure_of u f)   (* grpc C++: nothing is sent twice on a stream *)
   | 4 => flat_map (fun x => [x; x]) (closure_of u f)
   | 7 => f :: flat_map (fun d => match u_find d u with Some df => [df] | None => [] end) (rf_deps f)
   | 5 => if by_symbol then match filter (fun x => negb (bytes_eqb (rf_name x) (rf_name f))) u with x :: _ => [x] | [] => [f] end else [f]
